@@ -43,13 +43,19 @@ def spec_ranks(pop):
 
 # --------------------------------------------------------------------------- implementation adaptor
 
+_SHARED = {}
+
+
 def impl_ranks(pop, stale=None):
     """Front numbers the real code assigns.  `stale`: an earlier population (same length) that the same
     Individual objects are sorted with first, so that they carry old counters / dominate lists / front numbers
     into the sort under test, as the merged parent+offspring population of NSGA-II does."""
     from artap.individual import Individual
     from artap.operators import TournamentSelector
-    sel = TournamentSelector([])
+    # one long-lived selector, as in the algorithms: a sort must not depend on what was sorted before
+    if "sel" not in _SHARED:
+        _SHARED["sel"] = TournamentSelector([])
+    sel = _SHARED["sel"]
     inds = []
     for k, (c, m) in enumerate(pop):
         ind = Individual([float(k)])
@@ -59,6 +65,11 @@ def impl_ranks(pop, stale=None):
             ind.costs = list(c)
             ind.costs_signed = list(c) + [m]
         sel.fast_nondominated_sorting(inds)
+        if len(pop) % 2 == 0:
+            # the population under test consists of copies (same ids, different objects) of the one sorted
+            # before with the same selector - e.g. individuals read back from a store or deep-copied
+            import copy
+            inds = [copy.deepcopy(i) for i in inds]
     for ind, (c, m) in zip(inds, pop):
         ind.costs = list(c)
         ind.costs_signed = list(c) + [m]
